@@ -265,8 +265,15 @@ func RawFromDag(roots []*RCell, v BocVariant) *RawBoc {
 		r.SizeByte = byte(refSize)
 		r.HasIndex, r.HasCRC = true, true
 	}
-	for _, x := range roots {
-		r.RootList = append(r.RootList, uint64(idx[x.Key()]))
+	// block.tlb: only serialized_boc#b5ee9c72 has a root_list; serialized_boc_idx#68ff65f3 and
+	// serialized_boc_idx_crc32c#acc3a728 have { roots = 1 }, no list, and the root is cell 0 (the
+	// reference C++ reader sets has_roots for the generic magic only and refuses root_count != 1 otherwise)
+	if v.Magic == 0 {
+		for _, x := range roots {
+			r.RootList = append(r.RootList, uint64(idx[x.Key()]))
+		}
+	} else if len(roots) != 1 || idx[roots[0].Key()] != 0 {
+		panic("ref: the legacy containers hold exactly one root, stored first")
 	}
 	if r.HasIndex {
 		for _, e := range ends {
